@@ -16,7 +16,7 @@ theorem handlesList_append (A B : List HTree) :
 theorem handlesList_singleton (t : HTree) : handlesList [t] = handles t := by
   simp [handlesList]
 
-theorem handle_mem_handles (t : HTree) : t.handle ∈ handles t := by
+theorem fc_handle_mem_handles (t : HTree) : t.handle ∈ handles t := by
   cases t with
   | node h v ks => simp [HTree.handle, handles]
 
@@ -33,7 +33,7 @@ theorem handles_subset_handlesList {t : HTree} {L : List HTree} (ht : t ∈ L) :
 
 theorem rootHandle_mem_handlesList {t : HTree} {L : List HTree} (ht : t ∈ L) :
     t.handle ∈ handlesList L :=
-  handles_subset_handlesList ht _ (handle_mem_handles t)
+  handles_subset_handlesList ht _ (fc_handle_mem_handles t)
 
 /-! ### find? -/
 
@@ -70,39 +70,39 @@ theorem findList?_cons_of_not_mem (h : Nat) (a : HTree) (B : List HTree) (hn : h
   simp only [findList?]
   rw [find?_none_of_not_mem h a hn]
 
-theorem find?_self (h : Nat) (v : Value) (ks : List HTree) :
+theorem fc_find?_self (h : Nat) (v : Value) (ks : List HTree) :
     find? h (.node h v ks) = some (.node h v ks) := by
   simp [find?]
 
-theorem findList?_cons_self (h : Nat) (v : Value) (ks : List HTree) (B : List HTree) :
+theorem fc_findList?_cons_self (h : Nat) (v : Value) (ks : List HTree) (B : List HTree) :
     findList? h (.node h v ks :: B) = some (.node h v ks) := by
   simp [findList?, find?]
 
 /-! ### mapAt -/
 
 mutual
-  theorem mapAt_of_not_mem (h : Nat) (g : HTree → HTree) : ∀ t : HTree, h ∉ handles t → mapAt h g t = t
+  theorem fc_mapAt_of_not_mem (h : Nat) (g : HTree → HTree) : ∀ t : HTree, h ∉ handles t → mapAt h g t = t
     | .node h' v ks => by
       intro hn
       simp only [handles, List.mem_cons, not_or] at hn
       unfold mapAt
-      rw [if_neg (fun e => hn.1 e.symm), mapAtList_of_not_mem h g ks hn.2]
-  theorem mapAtList_of_not_mem (h : Nat) (g : HTree → HTree) : ∀ ks : List HTree,
+      rw [if_neg (fun e => hn.1 e.symm), fc_mapAtList_of_not_mem h g ks hn.2]
+  theorem fc_mapAtList_of_not_mem (h : Nat) (g : HTree → HTree) : ∀ ks : List HTree,
       h ∉ handlesList ks → mapAtList h g ks = ks
     | [] => by intro _; rfl
     | k :: ks => by
       intro hn
       simp only [handlesList, List.mem_append, not_or] at hn
       simp only [mapAtList]
-      rw [mapAt_of_not_mem h g k hn.1, mapAtList_of_not_mem h g ks hn.2]
+      rw [fc_mapAt_of_not_mem h g k hn.1, fc_mapAtList_of_not_mem h g ks hn.2]
 end
 
 theorem map_mapAt_of_not_mem (h : Nat) (g : HTree → HTree) (L : List HTree) (hn : h ∉ handlesList L) :
     L.map (mapAt h g) = L := by
   rw [← mapAtList_eq_map]
-  exact mapAtList_of_not_mem h g L hn
+  exact fc_mapAtList_of_not_mem h g L hn
 
-theorem mapAtList_append (h : Nat) (g : HTree → HTree) (A B : List HTree) :
+theorem fc_mapAtList_append (h : Nat) (g : HTree → HTree) (A B : List HTree) :
     mapAtList h g (A ++ B) = mapAtList h g A ++ mapAtList h g B := by
   simp [mapAtList_eq_map]
 
@@ -115,16 +115,16 @@ mutual
       intro hn
       simp only [handles, List.mem_cons, not_or] at hn
       unfold replaceBelow
-      rw [replaceKids_of_not_mem h f ks hn.2]
-  theorem replaceKids_of_not_mem (h : Nat) (f : HTree → List HTree) : ∀ ks : List HTree,
+      rw [fc_replaceKids_of_not_mem h f ks hn.2]
+  theorem fc_replaceKids_of_not_mem (h : Nat) (f : HTree → List HTree) : ∀ ks : List HTree,
       h ∉ handlesList ks → replaceKids h f ks = ks
     | [] => by intro _; rfl
     | k :: ks => by
       intro hn
       simp only [handlesList, List.mem_append, not_or] at hn
-      have hk : k.handle ≠ h := fun e => hn.1 (e ▸ handle_mem_handles k)
+      have hk : k.handle ≠ h := fun e => hn.1 (e ▸ fc_handle_mem_handles k)
       simp only [replaceKids]
-      rw [if_neg hk, replaceBelow_of_not_mem h f k hn.1, replaceKids_of_not_mem h f ks hn.2]
+      rw [if_neg hk, replaceBelow_of_not_mem h f k hn.1, fc_replaceKids_of_not_mem h f ks hn.2]
 end
 
 theorem map_replaceBelow_of_not_mem (h : Nat) (f : HTree → List HTree) (L : List HTree)
@@ -142,7 +142,7 @@ theorem replaceKids_append_of_not_mem (h : Nat) (f : HTree → List HTree) (A B 
   | nil => rfl
   | cons a A ih =>
     simp only [handlesList, List.mem_append, not_or] at hn
-    have hk : a.handle ≠ h := fun e => hn.1 (e ▸ handle_mem_handles a)
+    have hk : a.handle ≠ h := fun e => hn.1 (e ▸ fc_handle_mem_handles a)
     simp only [List.cons_append, replaceKids]
     rw [if_neg hk, replaceBelow_of_not_mem h f a hn.1, ih hn.2]
 
@@ -161,13 +161,13 @@ mutual
     | k :: ks, left => by
       intro hn
       simp only [handlesList, List.mem_append, not_or] at hn
-      have hk : k.handle ≠ h := fun e => hn.1 (e ▸ handle_mem_handles k)
+      have hk : k.handle ≠ h := fun e => hn.1 (e ▸ fc_handle_mem_handles k)
       unfold ctxKids
       rw [if_neg hk, ctxBelow_none_of_not_mem h k hn.1]
       exact ctxKids_none_of_not_mem h p ks (left ++ [k]) hn.2
 end
 
-theorem findSome?_ctxBelow_none (h : Nat) (L : List HTree) (hn : h ∉ handlesList L) :
+theorem fc_findSome?_ctxBelow_none (h : Nat) (L : List HTree) (hn : h ∉ handlesList L) :
     L.findSome? (ctxBelow h) = none := by
   induction L with
   | nil => rfl
@@ -203,7 +203,7 @@ theorem findSome?_ancestorsOf_none (h : Nat) (L : List HTree) (hn : h ∉ handle
     simp only [handlesList, List.mem_append, not_or] at hn
     simp [List.findSome?_cons, ancestorsOf_none_of_not_mem h a hn.1, ih hn.2]
 
-theorem ancestorsOfList_append_of_not_mem (h : Nat) (A B : List HTree) (hn : h ∉ handlesList A) :
+theorem fc_ancestorsOfList_append_of_not_mem (h : Nat) (A B : List HTree) (hn : h ∉ handlesList A) :
     ancestorsOfList h (A ++ B) = ancestorsOfList h B := by
   induction A with
   | nil => rfl
